@@ -293,7 +293,7 @@ add("c08_difference_ref", "c08::h_difference_ref::<{N}, {M}>()", ["C08"], NM([(1
 
 # ------------------------------------------------------------------ K-contracts (function contracts on the real functions)
 for sh, K, V in (("u8", "u8", "u8"),):
-    add("kc_insert_ii_full_frame_" + sh, "core_contracts::h_insert_ii_full_frame::<%s, %s, {N}>(false)" % (K, V), ["C03", "C05"], N_(0, 1, 2), T3,
+    add("kc_insert_ii_full_frame_" + sh, "core_contracts::h_insert_ii_full_frame::<%s, %s, {N}>(false)" % (K, V), ["C03", "C05"], N_(0, 1), N_(0, 1), timeout="30m",
         profile="both", expect=PANIC(*FULL_PANIC), contracts=True, kind="contract", backend="kani-contract",
         attrs=["#[kani::proof_for_contract(Map::<%s, %s, {N}>::insert_ii)]" % (K, V)],
         fn="Map::insert_ii under requires(full && key absent) modifies() - nothing is written before the panic", shape="S_" + sh)
@@ -399,7 +399,7 @@ add("c15_clone_count_zst", "c14::h_clone_count_zst::<{N}>({A})", ["C15", "C02"],
 for sh, K, V in (("u8", "u8", "u8"), ("id", "Key", "u8")):
     add("c18_insert_unchecked_" + sh, "c01::h_insert::<%s, %s, {N}>(3)" % (K, V), ["C18", "C12"], N_(1, 2), N_(1, 2, 3, 4), profile="both",
         fn="Map::insert_unchecked under its documented precondition: the contract of insert", shape="S_" + sh)
-add("kc_vacant_insert_full_frame", "core_contracts::h_vacant_insert_full_frame::<u8, u8, {N}>()", ["C03", "C05", "C11"], N_(0, 1, 2), T3, profile="both",
+add("kc_vacant_insert_full_frame", "core_contracts::h_vacant_insert_full_frame::<u8, u8, {N}>()", ["C03", "C05"], N_(0), N_(0, 1), profile="both", unwind="N+5", timeout="30m",
     expect=PANIC(*FULL_PANIC), contracts=True, kind="contract", backend="kani-contract", attrs=["#[kani::proof_for_contract(crate::entry::VacantEntry::<u8, u8, {N}>::insert)]"],
     fn="VacantEntry::insert under requires(full && key absent) modifies() - nothing is written before the panic", shape="S_u8")
 
